@@ -29,6 +29,7 @@ import (
 	"math/rand"
 	"net"
 	"os"
+	"reflect"
 	"runtime"
 	"sort"
 	"strconv"
@@ -1227,6 +1228,9 @@ func vC05EnvInt(name string, def int) int {
 	return def
 }
 
+// the raw reply of the last decoded-path serve (viaMsg), for CaseChase
+var vC05LastMsgReply []byte
+
 type vC05Step struct {
 	raw   []byte
 	tag   string
@@ -1241,6 +1245,143 @@ type vC05StepObs struct {
 	wLog, mLog string   // what the stub saw during this step
 	route      string   // which byte-path outcome counters moved on the wire-path server (coverage only)
 	unsettled  bool     // a background refresh did not finish in time: the rest of the history is not comparable
+	// alias composition (CaseChase): the chain views taken right before the packet on each server, whether
+	// the decoded-path server's view was the same right after it, and the raw replies
+	chW, chM   *cache.VC05Chase
+	chMStable  bool
+	rawW, rawM []byte
+}
+
+func (vs *vC05Server) cache() *cache.Cache {
+	if vs.s == nil || vs.s.pipeline == nil {
+		return nil
+	}
+	c, _ := vs.s.pipeline.Get("cache").(*cache.Cache)
+	return c
+}
+
+// the client's DO bit as both paths read it
+func vC05ClientDO(raw []byte) bool {
+	m := new(dns.Msg)
+	if err := m.Unpack(raw); err != nil {
+		return false
+	}
+	if o := m.IsEdns0(); o != nil {
+		return o.Do()
+	}
+	return false
+}
+
+// vC05ChaseCase renders one CaseChase term (names numbered per folded name) or "" when nothing was viewed.
+func vC05ChaseCase(st vC05Step, ob vC05StepObs) (string, map[string]any) {
+	if ob.chW == nil && ob.chM == nil {
+		return "", nil
+	}
+	ids := map[string]int{}
+	id := func(n string) int {
+		if n == "" {
+			return 0
+		}
+		if v, ok := ids[n]; ok {
+			return v
+		}
+		ids[n] = len(ids) + 1
+		return ids[n]
+	}
+	bs := map[bool]string{true: "true", false: "false"}
+	recs := func(rs []cache.VC05Rec) string {
+		if len(rs) == 0 {
+			return "[]"
+		}
+		var p []string
+		for _, r := range rs {
+			p = append(p, fmt.Sprintf("mk_rrec N %d %d %d %d", r.Type, id(r.Target), r.Rest, r.TTL))
+		}
+		return "[" + strings.Join(p, "; ") + "]"
+	}
+	dummies := func(n int) string {
+		if n == 0 {
+			return "[]"
+		}
+		return "[" + strings.Join(strings.Split(strings.Repeat("mk_rrec N 0 0 0 0,", n), ",")[:n], "; ") + "]"
+	}
+	entry := func(h cache.VC05Hop) string {
+		return fmt.Sprintf("(mk_centry N %d %s %s %s %d %s %s %d %s %s %s)", id(h.StoredName), recs(h.Recs), dummies(h.NS), dummies(h.Extra),
+			h.Rcode, bs[h.AD], bs[h.Live], h.TTL, bs[h.WireOK], bs[h.Recomposable], bs[h.Due])
+	}
+	view := func(v *cache.VC05Chase) string {
+		if v == nil || len(v.Hops) == 0 {
+			return "None"
+		}
+		var rest []string
+		for _, h := range v.Hops[1:] {
+			rest = append(rest, fmt.Sprintf("(%d%%N, %s)", id(h.Asked), entry(h)))
+		}
+		rs := "[]"
+		if len(rest) > 0 {
+			rs = "[" + strings.Join(rest, "; ") + "]"
+		}
+		return fmt.Sprintf("(Some (%s, %s))", entry(v.Hops[0]), rs)
+	}
+	answers := func(raw []byte) ([]cache.VC05Rec, int, bool, bool) {
+		m := new(dns.Msg)
+		if len(raw) == 0 || m.Unpack(raw) != nil {
+			return nil, 0, false, false
+		}
+		var out []cache.VC05Rec
+		for _, rr := range m.Answer {
+			out = append(out, cache.VC05RecOf(rr))
+		}
+		return out, m.Rcode, m.Truncated, true
+	}
+	var ref *cache.VC05Chase
+	if ob.chW != nil {
+		ref = ob.chW
+	} else {
+		ref = ob.chM
+	}
+	qname := id(ref.Hops[0].Asked)
+	wview, segs, comp, wrep := "None", "None", "None", "None"
+	if ob.chW != nil && ob.chW.Stable {
+		wview = view(ob.chW)
+		if ob.chW.CodeOK {
+			// the names the segments were asked under: the question, then each hop's lookup name
+			var ns []string
+			for i := range ob.chW.CodeSegs {
+				if i < len(ob.chW.Hops) {
+					ns = append(ns, strconv.Itoa(id(ob.chW.Hops[i].Asked)))
+				} else {
+					ns = append(ns, "0")
+				}
+			}
+			segs = "(Some [" + strings.Join(ns, ";") + "]%N)"
+			if ob.chW.CompOK {
+				comp = fmt.Sprintf("(Some (%s, %s))", recs(ob.chW.Composed), bs[ob.chW.CompAD])
+			}
+			if strings.Contains(ob.route, "chase_served") {
+				if a, _, tc, ok := answers(ob.rawW); ok && !tc {
+					wrep = "(Some " + recs(a) + ")"
+				}
+			}
+		}
+	}
+	mview, mrep := "None", "None"
+	if ob.chM != nil && ob.chM.Stable && ob.chMStable {
+		mview = view(ob.chM)
+		if a, rc, tc, ok := answers(ob.rawM); ok && !tc {
+			mrep = fmt.Sprintf("(Some (%d%%N, %s))", rc, recs(a))
+		}
+	}
+	names := make([]string, len(ids))
+	for n, i := range ids {
+		names[i-1] = n
+	}
+	desc := map[string]any{"names": names, "route": ob.route, "tags": st.tag, "code_ok": ob.chW != nil && ob.chW.CodeOK, "raw": hex.EncodeToString(st.raw)}
+	if ob.chW != nil {
+		desc["wire_hops"] = len(ob.chW.Hops)
+		desc["code_segs"] = ob.chW.CodeSegs
+	}
+	return fmt.Sprintf("CaseChase %d %s %d %s %s %s %s %s %s", ref.Qtype, bs[ref.CD], qname, wview, segs, comp, wrep, mview, mrep), desc
 }
 
 // the cache's byte-path outcome counters, read from the default registry (coverage only)
@@ -1283,6 +1424,10 @@ func vC05RunScenario(t vC05Toggles, hostsPath string, steps []vC05Step) []vC05St
 			return []string{"engine-formerr", "", "", "", "", "", ""}
 		}
 		vs.s.ServeMsg(context.Background(), job, m)
+		vC05LastMsgReply = nil
+		if job.writes == 1 {
+			vC05LastMsgReply = append([]byte(nil), job.wrote...)
+		}
 		a := vC05Abstract(job.wrote, job.writes > 0)
 		if job.writes > 1 {
 			a[0] = fmt.Sprintf("reply-x%d", job.writes)
@@ -1322,6 +1467,10 @@ func vC05RunScenario(t vC05Toggles, hostsPath string, steps []vC05Step) []vC05St
 		} else {
 			before := vC05WireOutcomes()
 			now := time.Now()
+			chase := t.clientRate == 0 && t.entryRate == 0
+			if chase {
+				out[i].chW = cache.VC05ChaseView(sw.cache(), st.raw, vC05ClientDO(st.raw))
+			}
 			job := wjob
 			job.rearm(st.ip, i%3 != 0)
 			handled := true
@@ -1339,6 +1488,9 @@ func vC05RunScenario(t vC05Toggles, hostsPath string, steps []vC05Step) []vC05St
 				out[i].w = vC05Abstract(job.wrote, job.writes > 0)
 				if job.writes > 1 {
 					out[i].w[0] = fmt.Sprintf("reply-x%d", job.writes)
+				}
+				if job.writes == 1 {
+					out[i].rawW = append([]byte(nil), job.wrote...)
 				}
 			}
 			var moved []string
@@ -1370,7 +1522,16 @@ func vC05RunScenario(t vC05Toggles, hostsPath string, steps []vC05Step) []vC05St
 			continue
 		}
 		sm.resetLog()
+		chaseM := !st.probe && t.clientRate == 0 && t.entryRate == 0
+		if chaseM {
+			out[i].chM = cache.VC05ChaseView(sm.cache(), st.raw, vC05ClientDO(st.raw))
+		}
 		out[i].m = viaMsg(sm, st)
+		if out[i].chM != nil {
+			post := cache.VC05ChaseView(sm.cache(), st.raw, vC05ClientDO(st.raw))
+			out[i].chMStable = post != nil && reflect.DeepEqual(out[i].chM.Hops, post.Hops)
+			out[i].rawM = vC05LastMsgReply
+		}
 		if t.prefetch && !sm.settle() {
 			out[i].unsettled = true
 		}
@@ -2044,6 +2205,9 @@ func TestVerifC05Differential(t *testing.T) {
 				rec["inconclusive"] = true
 			}
 			emit(rec)
+			if cq, cdesc := vC05ChaseCase(st, ob); cq != "" && !unsettled && !(firstBad >= 0 && i > firstBad) {
+				emit(map[string]any{"k": "chase/" + ob.route, "coq": cq, "desc": cdesc, "nontrivial": true, "go_fail": ""})
+			}
 		}
 		budget -= nsteps
 	}
